@@ -266,6 +266,8 @@ def run(ctx):
     choice_list_obligations(ctx, r2, "C20.R2")
     from ..rowloop import row_prologue_obligations
     row_prologue_obligations(ctx, r2, "C20.R2")
+    from ..rowloop import type_branch_obligations
+    type_branch_obligations(ctx, r2, "C20.R2")
     rules += [r2, r3]
     rules.append(warning_census_rule(ctx))
 
